@@ -6,10 +6,15 @@ set -u
 P=$1; D=$2; shift 2
 CHECKS=${@:-$P}
 export GOFLAGS=-mod=mod GOPROXY=off; unset GOTOOLCHAIN GOSUMDB
-mkdir -p /tmp/seedwork-$P /tmp/seedwork-${P}r2 /tmp/seedwork-${P}r3   # the demos create their scratch modules below these directories
+# the demos create their scratch modules below these directories; a directory that already exists belongs to a seeding
+# agent that is still at work and is neither emptied nor removed
+MADE=""
+for d in /tmp/seedwork-$P /tmp/seedwork-${P}r2 /tmp/seedwork-${P}r3 /tmp/seedwork-${P}r4; do
+  if [ ! -e "$d" ]; then mkdir -p "$d"; MADE="$MADE $d"; fi
+done
 WT=$(mktemp -d /tmp/seedwt-XXXXXX); rmdir $WT
 git -C /repo worktree add -q $WT HEAD || exit 2
-trap 'git -C /repo worktree remove --force $WT; rm -rf $WT /tmp/seedwork-$P /tmp/seedwork-${P}r2 /tmp/seedwork-${P}r3' EXIT
+trap 'git -C /repo worktree remove --force $WT; rm -rf $WT $MADE' EXIT
 echo "== demo on original:"; (bash $D/demo.sh $WT > /tmp/seedcheck-demo0.log 2>&1; echo "exit $?")
 git -C $WT apply $D/patch.diff 2>/dev/null || git -C $WT apply -3 $D/patch.diff || { echo "patch does not apply"; exit 2; }
 echo "== build + tests with the change:"; (cd $WT && go build ./... && go test -vet=off -count=1 ./... 2>&1 | grep -v '^ok\|no test files' ; echo "tests exit ${PIPESTATUS[0]}")
@@ -20,3 +25,4 @@ for c in $CHECKS; do
 done
 # regenerate the facts table from /repo itself (a VERIF_REPO run leaves the mutated tree's table behind)
 (cd /verif/harness && go build -tags verif -o /tmp/seedcheck-facts ./cmd/facts && /tmp/seedcheck-facts /repo > /verif/lean/ShootVerif/Gen/Facts.lean; rm -f /tmp/seedcheck-facts)
+(cd /verif && python3 -c "import sys; sys.path.insert(0, 'tools'); from vlib import enumgen; enumgen.regen_enum_facts()" >/dev/null 2>&1)
